@@ -135,7 +135,7 @@ func freeRound(w *world, in freeInput, seed int64, tr *tracer, stats0 map[string
 			return
 		}
 		amu.Lock()
-		plan := cs.peer.answer(cs.part, it.GetBlockNumber(), s.r, w)
+		plan := cs.peer.answer(cs.part, it.GetBlockNumber(), s.r, w, "")
 		count("variant:"+cs.peer.class, 1)
 		amu.Unlock()
 		tr.add(vh.J{"ev": "Req", "part": cs.part, "peer": cs.peer.name, "n": it.GetBlockNumber(),
@@ -159,7 +159,8 @@ func freeRound(w *world, in freeInput, seed int64, tr *tracer, stats0 map[string
 		}()
 	}
 	// lin orders the events of the two sides: NewStream's context check + event, the consumer's
-	// receive + event, the cancellation + event are each atomic under it
+	// receive + event, its Store + event against the service's height read, the cancellation + event
+	// are each atomic under it
 	var lin sync.Mutex
 	// juno draws the peer with the global math/rand, which cannot be seeded: the peerstore hands
 	// out ONE uniformly drawn peer instead (same distribution, reproducible rounds)
@@ -174,6 +175,7 @@ func freeRound(w *world, in freeInput, seed int64, tr *tracer, stats0 map[string
 		return []peer.ID{alive[pr.Intn(len(alive))]}
 	}
 	s.net.lin = &lin
+	s.store.lin = &lin
 	s.net.onOpen = func(p *simPeer, part string) { tr.add(vh.J{"ev": "Open", "part": part, "peer": p.name}) }
 	doCancel := func() {
 		lin.Lock()
@@ -271,8 +273,12 @@ func freeRound(w *world, in freeInput, seed int64, tr *tracer, stats0 map[string
 			}
 			before := s.dump()
 			heightBefore := len(s.storedIDs())
+			// the Store and its event are one step for the other side (see gateStore.lin): the service reads
+			// the height on its own goroutines, in parallel with this one
+			lin.Lock()
 			err := s.node.BC.Store(b.Block, b.Commitments, b.StateUpdate, b.NewClasses)
 			tr.add(vh.J{"ev": "Store", "ok": err == nil, "c": c, "h": h})
+			lin.Unlock()
 			if err != nil {
 				count("store-rejected", 1)
 				if d := faultkv.Diff(before, s.dump(), nil, 5); len(d) > 0 {
